@@ -67,7 +67,7 @@ SPECIAL = {
     'resourceManager.config.backend': ['local', 'lsf', 'kubernetes', 'simulator', 'docker'],
     'command.expandArguments': ['none', 'double-quote'],
     'command.interpreter': ['bash', 'javascript'],
-    'command.environment': ['envA', 'envB', 'none', 'environment'],
+    'command.environment': ['envA', 'gpu-env', 'gpu-debug', 'none', 'environment'],
     'workflowAttributes.restartHookOn': [['KnownIssue'], ['UnknownIssue', 'SystemIssue'], ['ResourceExhausted', 'KnownIssue']],
     'workflowAttributes.shutdownOn': [['KnownIssue'], ['SystemIssue', 'ExternalError'], []],
     'workflowAttributes.maxRestarts': [-1, 0, 3, 10],
@@ -315,7 +315,8 @@ def gen_doc(rng, cover, hostile=False):
                                                 if rng.random() < 0.6}}},
            'environments': {'default': {}}, 'platforms': ['default']}
     envs = doc['environments']['default']
-    for en in ['envA', 'envB']:
+    # environment names may hold hyphens (section ENV-GPU-ENV) and share their first token
+    for en in ['envA', 'gpu-env', 'gpu-debug']:
         if rng.random() < 0.7:
             envs[en] = {'PATH': '/opt/bin:$PATH', 'OMP_NUM_THREADS': rng.choice(['1', '4']), 'DEFAULTS': 'PATH:LD_LIBRARY_PATH'}
             if hostile:
